@@ -3,6 +3,8 @@ package auth
 import (
 	"time"
 
+	"github.com/buzzfeed/sso/internal/pkg/sessions"
+
 	zz "github.com/buzzfeed/sso/internal/zzverif"
 )
 
@@ -37,4 +39,31 @@ func VerifC08ConfigGate() {
 	zz.Assert(zz.And(c.ClientConfigs["proxy"].ID != "", c.ClientConfigs["proxy"].Secret != ""),
 		"C08.a configuration accepted at start-up gives the authenticator a non-empty proxy client id and secret")
 	_ = time.Second
+}
+
+func init() { VerifHarnesses["VerifC08CodeKeyWiring"] = VerifC08CodeKeyWiring }
+
+// VerifC08CodeKeyWiring: the authenticator wired by the REAL SetCookieStore opens authorization
+// codes only under the session key: a value sealed under the COOKIE secret (e.g. a user's own
+// session cookie) or under any other key is not a code, and a code is not a cookie.
+func VerifC08CodeKeyWiring() {
+	// two different 32-byte keys, as `openssl rand -base64 32` prints them
+	sessionKey, cookieSecret := "CrYro5Kp6CO2aBbVGoHgnh2/YQaz9cqqRYNbtTSUBDs=", "zaPX2fYMyegfOwwMEaMiphwrjgxz0pxoTbxvQiK9zBY="
+	a := &Authenticator{}
+	err := SetCookieStore(SessionConfig{Key: sessionKey, CookieConfig: CookieConfig{Name: "_sso_auth", Secret: cookieSecret, Expire: time.Hour, Secure: true, HTTPOnly: true}}, "idp")(a)
+	if err != nil {
+		panic(err)
+	}
+	sess := verifAuthSession("sess")
+	store := a.sessionStore.(*sessions.CookieStore)
+	asCookie, e1 := store.CookieCipher.Marshal(sess)
+	asCode, e2 := a.AuthCodeCipher.Marshal(sess)
+	zz.Assert(e1 == nil && e2 == nil, "C08.sealing succeeds under both keys")
+	var out sessions.SessionState
+	zz.Assert(a.AuthCodeCipher.Unmarshal(asCookie, &out) != nil, "C08.a value sealed under the cookie secret is not accepted as an authorization code")
+	var out2 sessions.SessionState
+	zz.Assert(store.CookieCipher.Unmarshal(asCode, &out2) != nil, "C08.an authorization code is not accepted as a session cookie")
+	var out3 sessions.SessionState
+	zz.Assert(a.AuthCodeCipher.Unmarshal(asCode, &out3) == nil && out3.Email == sess.Email, "C08.a code sealed under the session key opens")
+	zz.Reach("wired")
 }
